@@ -96,6 +96,10 @@ def grammar_oracle(p, val):
 
 
 SHAPE_AXES = {0: (1, 0), 1: (0, 0), 2: (0, 0), 3: (0, 1), 4: (0, 1), 5: (0, 2), 6: (0, 2)}   # shape -> (get, protocol)
+# live transport -> (HTTP version index, TLS mode) as the server sees it; see the harness for the eight transports
+MODE_AXES = {0: (0, 0), 1: (0, 1), 2: (0, 2), 3: (1, 1), 4: (1, 2), 5: (1, 0), 6: (0, 0), 7: (0, 1)}
+# wire shapes a client would use for a procedure: unary POST (GET only for the idempotent one), streams
+PROC_SHAPES = {0: [1, 3, 4, 5, 6], 1: [2, 3, 4, 5, 6], 2: [2, 3, 4, 5, 6], 3: [2, 3, 4, 5, 6], 4: [0, 1, 3, 5]}
 
 
 class C12(Prop):
@@ -104,7 +108,8 @@ class C12(Prop):
     coq_files = ("Base", "C12_Consts", "C12_Model", "C12_Spec", "C12_Proofs", "C12_Props")
     models = ("C12_Model",)
     packages = {"rs": "internal/app/referenceserver"}
-    kinds = {"c12.seq": "rs", "c12.matrix": "rs", "c12.render": "rs", "c12.timeouts": "rs", "c12.live": "rs"}
+    kinds = {"c12.seq": "rs", "c12.matrix": "rs", "c12.render": "rs", "c12.timeouts": "rs", "c12.wire": "rs",
+             "c12.events": "rs", "c12.live": "rs"}
     consts = ("rs",)
     rule = ("c12.matrix: the FULL matrix (in chunks of 36 renderings) of 648 announced set-ups (3 HTTP versions x GET/POST x 3 protocols x 2 codecs x 6 compressions x "
             "TLS off/on/on+client-cert) x 756 client renderings (3 versions x 7 wire shapes x 2 codecs x 6 compressions x 3 TLS modes) = "
@@ -114,31 +119,48 @@ class C12(Prop):
             "(9..9, 10..0, leading zeros, int64/hour-overflow neighbours) of lengths 1-21 x six units and bad units, seeded random "
             "strings to length 12; c12.seq: sequences of general requests on one handler (repeats, trailers, duplicated headers and "
             "query parameters, missing name, malformed x-expect-* values, foreign methods, bodies on GET, certificate names); "
-            "c12.live: 600 (quick) / 12000 (thorough) such requests sent by a real Go client over real listeners (HTTP/1.1, HTTP/1.1+TLS, "
-            "HTTP/2+TLS, h2c; with and without the client certificate of internal.NewClientCert), so that ProtoMajor, req.TLS, header "
-            "canonicalisation, query parsing, body and trailers are what net/http delivers; extra: the Go side against a python regular-"
+            "c12.events: scripts of BEGIN/END events on one handler whose inner handler is parked on a channel (overlaps forced "
+            "deterministically): EVERY interleaving of 3 (quick) / 4 (thorough) requests x every assignment of two test names, plus 3000 / 30000 "
+            "random scripts of up to 7 general requests over three names - per event what is written during that event; "
+            "c12.wire: 600 / 8000 general requests sent by a real Go client over real listeners to referenceServerChecks around a recording "
+            "handler (HTTP/1.1, HTTP/1.1+TLS, HTTP/2+TLS, h2c; with and without the client certificate of internal.NewClientCert), so that "
+            "ProtoMajor, req.TLS, header canonicalisation, query parsing, body and trailers are what net/http delivers; "
+            "c12.live: the servers that createServer builds in reference mode (HTTP/1.1 and HTTP/2, plain / TLS / TLS with required client "
+            "certificate = 6 servers, 8 client transports incl. HTTP/1.1 to the h2c and to the HTTP/2+TLS server), ALL five procedures: "
+            "transport x procedure x announced version x announced TLS mode systematically (360), 2500 / 12000 requests the unary handlers "
+            "answer (timeout_ms and the timeout headers the RPC handler saw, read from the RequestInfo of the decoded response), 28000 / 80000 "
+            "cases of 1-3 perturbed requests (30% BidiStream over HTTP/1.1): per request rejected / prefix / feedback as a multiset "
+            "(sorted by kind) / whether the RPC handler refused the HTTP version (505); extra: the Go side against a python regular-"
             "expression oracle of the two grammars on ~2400 boundary strings x 3 protocols (independent of the regenerated constants). "
             "Compared: feedback kinds with arguments and prefix, accepted duration in ns, header seen by the inner handler, timeout_ms echoed "
             "by createRequestInfo. non-trivial = some feedback or an accepted timeout")
     trusted_base = ("Coq 8.16.1 kernel (vm_compute used, native_compute not)", "extraction (ExtrOcamlBasic only) + ocaml/driver.ml",
                     "vlib generators/comparator, Go overlay harness (request construction from the record, feedback-kind mapping)",
-                    "modelled, sampled by c12.live, not verified: net/http header canonicalisation, url.Values parsing, req.TLS and "
-                    "req.Trailer population (HTTP/3 not exercised live); whitespace trimming of header values and connect.ErrorWriter are "
-                    "outside the model; float64 arithmetic of time.Duration.Hours/Minutes/Seconds enters the theorems as hypothesis "
+                    "modelled, sampled by c12.wire / c12.live, not verified: net/http header canonicalisation, url.Values parsing, req.TLS and "
+                    "req.Trailer population (HTTP/3 not exercised live); rawResponder, cors, h2c and connect-go are not modelled (the model's "
+                    "server = workaround + checks + RPC handler; that the other layers do not touch what the checks read is sampled by c12.live); "
+                    "c12.live adds one outermost reporting wrapper to the handler chain (completion signal) and sends an extra id header; "
+                    "whitespace trimming of header values and connect.ErrorWriter are outside the model; float64 arithmetic of time.Duration.Hours/Minutes/Seconds enters the theorems as hypothesis "
                     "float_quot_ok (within 1 of the truncated quotient, exact on multiples), exercised at the overflow boundaries")
     assumptions = ("requests reach the checks as net/http delivers them (canonical header keys, parsed query)",
                    "Duration.Hours/Minutes/Seconds are within 1 of the exact quotient and exact on exact multiples")
 
-    level_text = ("Machine-checked proof (Coq) that the model of referenceServerChecks is silent exactly on matching set-up/rendering pairs "
-                  "and names exactly the deviating aspects (over the whole finite matrix), flags repeats and trailers, rejects nameless "
-                  "requests, and accepts a timeout header iff it follows the protocol grammar (all byte strings), with exact/saturating "
-                  "duration, removal and echo; the model is tied to the Go code by the full-matrix and bounded-exhaustive differential run.")
+    level_text = ("Machine-checked proof (Coq) that the model of referenceServerChecks - and of the handler chain createServer builds around "
+                  "it, for all five procedures - is silent exactly on matching set-up/rendering pairs and names exactly the deviating aspects "
+                  "(over the whole finite matrix; the HTTP/1.1-bidi workaround changes what the RPC handler is told, never what is judged), "
+                  "flags a request as repeat iff a request of the same test began earlier (all interleavings of begin/end events), flags "
+                  "trailers, rejects nameless requests, and accepts a timeout header iff it follows the protocol grammar (all byte strings), "
+                  "with exact/saturating duration, removal and echo; the model is tied to the Go code by the full-matrix, bounded-exhaustive "
+                  "and live (real createServer) differential run.")
     level_note = ("Trusted: Coq kernel, extraction, OCaml driver, harness; model-code correspondence is tested (full matrix, exhaustive "
                   "short timeout strings, live requests), not proved. The theorems about the matrix range over the 648 x 756 finite domain "
                   "and every test name; those about timeouts, repeats, trailers and nameless requests over all byte strings / requests / "
-                  "histories. Nothing is partial. float64 duration conversion is a hypothesis (float_quot_ok), inhabited by the exact quotient.")
-    technique = ("Coq proof (per-aspect case analysis over the finite matrix, induction on digit strings and histories, int64 wrap-around "
-                 "arithmetic) about a model of checks.go; differential model-vs-Go correspondence incl. live HTTP/TLS requests")
+                  "histories / event interleavings. The documented HTTP/1.1-bidi exemption is empty at the level of feedback (the unchanged code applies "
+                  "the workaround after the checks): silent_iff_match holds for all five procedures without exception; the exemption is what "
+                  "bidi_exemption_scope / bidi_served_over_http1 state. Nothing is partial. float64 duration conversion is a hypothesis (float_quot_ok), inhabited by the exact quotient.")
+    technique = ("Coq proof (per-aspect case analysis over the finite matrix, induction on digit strings, histories and begin/end event "
+                 "interleavings, int64 wrap-around arithmetic, refuted variant of the handler order) about a model of checks.go and of "
+                 "createServer's handler chain; differential model-vs-Go correspondence incl. live HTTP/TLS requests to the real server")
 
     def nontrivial(self, case, res):
         return ("(1" in res or "(2" in res or "(3" in res or "(7" in res or "(9" in res or "(" in res[2:]) and len(res) > 8
@@ -290,21 +312,26 @@ class C12(Prop):
             r["name"] = []
             yield ["c12.seq", [req_sx(r)]]
 
-    def gen_live(self, rng, tier):
+    def gen_wire(self, rng, tier):
         """requests sent by a real Go client over real listeners (HTTP/1.1, HTTP/1.1+TLS, HTTP/2+TLS, h2c; with and without the
         client certificate made by internal.NewClientCert): what net/http delivers (ProtoMajor, req.TLS, canonical headers,
         parsed query, body, trailers) against the record the model reads.  Only values that survive the wire unchanged
         (no surrounding blanks, methods the client does not rewrite, te absent or `trailers`)."""
-        n = 600 if tier == "quick" else 12000
+        n = 600 if tier == "quick" else 8000
+        for i in range(n):
+            mode = i % 6
+            yield ["c12.wire", mode, req_sx(self.live_request(rng, mode, rng.randrange(7)))]
+
+    def live_request(self, rng, mode, s, name=None):
+        """one request for a live kind: a rendering that fits the transport, expectation perturbed in HTTP version / TLS,
+        then 0-2 malformations that survive the wire (no surrounding blanks, methods the client does not rewrite, te left alone)"""
         weird_enum = ["0", "4", "7", "+1", "-1", "x", "", "01", "2147483648", "3"]
         weird_bool = ["1", "0", "t", "F", "TRUE", "tRUE", "yes", ""]
         cts = ["application/grpc", "application/grpc+proto", "application/grpc-web", "application/grpc-web+json", "application/grpcx",
                "application/connect+proto", "application/json", "application/", "text/plain", "", "application/proto; charset=utf-8"]
-        # every transport x TLS expectation x a rendering, unperturbed and perturbed
-        for i in range(n):
-            mode = i % 6
-            v, s, c, z = (1 if mode >= 3 else 0), rng.randrange(7), rng.randrange(2), rng.randrange(6)
-            t = {0: 0, 1: 1, 2: 2, 3: 1, 4: 2, 5: 0}[mode]
+        if True:
+            v, t = MODE_AXES[mode]
+            c, z = rng.randrange(2), rng.randrange(6)
             r = render(v, s, c, z, t)
             get, p = SHAPE_AXES[s]
             ev, et = v, t
@@ -312,7 +339,7 @@ class C12(Prop):
                 ev = rng.randrange(3)
             if rng.random() < 0.4:
                 et = rng.randrange(3)
-            r = expect(r, rng.choice(["t", "A/b"]), ev, get, p, c, z, et)
+            r = expect(r, name or rng.choice(["t", "A/b"]), ev, get, p, c, z, et)
             for _ in range(rng.choice([0, 0, 1, 2])):
                 k = rng.randrange(9)
                 if k == 0:
@@ -342,7 +369,109 @@ class C12(Prop):
                                        ["12345678901"], ["x"], [str(rng.randrange(10 ** 8)) + rng.choice(UNITS)]])
             if r["trailers"] and r["method"] == "GET":
                 r["body_empty"] = False     # Go's client drops an empty body (and its trailers) on GET
-            yield ["c12.live", mode, req_sx(r)]
+            return r
+
+    def gen_live(self, rng, tier):
+        """requests sent by real Go clients to the servers that createServer builds in reference mode (HTTP/1.1 and HTTP/2
+        servers, plain / TLS / TLS with required client certificate; 8 client transports), for all five procedures."""
+        # 1. systematic: transport x procedure x announced HTTP version x announced TLS mode, a rendering that fits the procedure
+        for mode in range(8):
+            v, t = MODE_AXES[mode]
+            for proc in range(5):
+                for ev in range(3):
+                    for et in range(3):
+                        s = rng.choice(PROC_SHAPES[proc])
+                        c, z = rng.randrange(2), rng.randrange(6)
+                        get, p = SHAPE_AXES[s]
+                        r = expect(render(v, s, c, z, t), "t", ev, get, p, c, z, et)
+                        yield ["c12.live", mode, proc, [req_sx(r)]]
+        # 2. requests the unary handlers answer: the timeout as echoed in the response's RequestInfo
+        tvals = ["100", "0", "5", "+5", "-0", "", "x", "9999999999", "00000000001", "9223372036854", "9223372036855", "12345678901"]
+        gvals = ["5S", "0n", "1H", "99999999H", "2562047H", "2562048H", "5124096H", "000000001H", "+5S", "-0m", "5", "S", "", "5s",
+                 "100m", "99999999u", "1 S"]
+        n = 2500 if tier == "quick" else 12000
+        for i in range(n):
+            mode, proc = rng.randrange(8), rng.choice([0, 4])
+            v, t = MODE_AXES[mode]
+            web = rng.random() < 0.5
+            s = rng.choice([5, 6]) if web else 1
+            r = expect(render(v, s, 0, 0, t), "echo", v, 0, 2 if web else 0, 0, 0, t)
+            if not web:
+                r["body_empty"] = True
+            k = rng.random()
+            if k < 0.8:
+                val = rng.choice(gvals) if web else rng.choice(tvals)
+                if rng.random() < 0.3:
+                    val = (str(rng.randrange(10 ** rng.randint(1, 9))) + rng.choice(UNITS)) if web else str(rng.randrange(10 ** rng.randint(1, 11)))
+                if val == val.strip():
+                    r["gto" if web else "cto"] = [val]
+            if rng.random() < 0.15:
+                r["cto" if web else "gto"] = ["7"]        # the other protocol's header: left alone, ignored
+            if rng.random() < 0.1:
+                r["xp"] = [rng.choice(["1", "2", "3"])]
+            yield ["c12.live", mode, proc, [req_sx(r)]]
+        # 3. random: 1-3 requests per case (repeats of a test name on the long-lived server), perturbed
+        n = 28000 if tier == "quick" else 80000
+        for i in range(n):
+            mode, proc = rng.randrange(8), rng.randrange(5)
+            if rng.random() < 0.3:
+                mode, proc = rng.choice([0, 6, 1, 2, 7]), 3      # BidiStream over HTTP/1.1
+            names = [rng.choice(["t", "A/b", "x y"]) for _ in range(2)]
+            reqs = []
+            for _ in range(rng.choice([1, 1, 2, 3])):
+                s = rng.choice(PROC_SHAPES[proc]) if rng.random() < 0.8 else rng.randrange(7)
+                reqs.append(req_sx(self.live_request(rng, mode, s, rng.choice(names))))
+            yield ["c12.live", mode, proc, reqs]
+
+    def gen_events(self, rng, tier):
+        """overlapping requests: scripts of BEGIN / END events on one handler"""
+        def simple(name, trailers=0):
+            r = expect(render(1, 1, 0, 0, 0), name, 1, 0, 0, 0, 0, 0)
+            r["trailers"] = trailers
+            if not name:
+                r["name"] = []
+            return req_sx(r)
+
+        def interleavings(n):
+            # begins in order, every end after its begin
+            def go(next_begin, open_, acc):
+                if next_begin == n and not open_:
+                    yield list(acc)
+                    return
+                if next_begin < n:
+                    yield from go(next_begin + 1, open_ + [next_begin], acc + [("b", next_begin)])
+                for i in open_:
+                    yield from go(next_begin, [j for j in open_ if j != i], acc + [("e", i)])
+            yield from go(0, [], [])
+
+        # bounded-exhaustive: every interleaving of n requests x every assignment of two test names (one request with trailers)
+        n = 3 if tier == "quick" else 4
+        for pattern in itertools.product("ab", repeat=n):
+            for il in interleavings(n):
+                yield ["c12.events", [[0, simple(pattern[i], trailers=(2 if i == 1 else 0))] if k == "b" else [1, i] for k, i in il]]
+        # the seeded interleaving, spelled out: second request of the test while the first is in flight, third afterwards
+        yield ["c12.events", [[0, simple("a")], [0, simple("a")], [1, 0], [1, 1], [0, simple("a")], [1, 2]]]
+        # a nameless request in between is rejected at once and does not count
+        yield ["c12.events", [[0, simple("a")], [0, simple("")], [0, simple("a")], [1, 2], [1, 0]]]
+        # random: up to 7 general requests (the c12.live perturbations), three names, not all ended
+        m = 3000 if tier == "quick" else 30000
+        for _ in range(m):
+            k = rng.randint(2, 7)
+            names = ["t", "A/b", "x y"]
+            evs, open_, begun = [], [], 0
+            while begun < k or (open_ and rng.random() < 0.8):
+                if begun < k and (not open_ or rng.random() < 0.55):
+                    r = self.live_request(rng, rng.randrange(6), rng.randrange(7), rng.choice(names))
+                    r["pm"], r["tls"] = rng.choice([1, 2, 2, 3]), rng.choice([[], [[]], [[CERT]]])
+                    evs.append([0, req_sx(r)])
+                    if r["name"] and r["name"][0] != "":
+                        open_.append(begun)
+                    begun += 1
+                elif open_:
+                    i = rng.choice(open_)
+                    open_.remove(i)
+                    evs.append([1, i])
+            yield ["c12.events", evs]
 
     def generate(self, rng, tier):
         # chunks of 36 renderings (one version x shape x codec slice): small enough for the shrinker
@@ -355,6 +484,8 @@ class C12(Prop):
             yield ["c12.render", rng.randrange(N_ACTUAL), e]
         yield from self.gen_timeouts(rng, tier)
         yield from self.gen_seq(rng, tier)
+        yield from self.gen_events(rng, tier)
+        yield from self.gen_wire(rng, tier)
         yield from self.gen_live(rng, tier)
 
 
